@@ -50,6 +50,18 @@ def strategy(tier, shard):
         route = "load" if problem["kind"] == "tabular" else draw(st.sampled_from(["restore", "restore", "load"]))
         ov = dict(new_dir=draw(st.booleans()), frequency=draw(st.sampled_from([None, 1, 2, 3, 0])),
                   keep=draw(st.sampled_from([None, 1, 2, 4])), async_=draw(st.sampled_from([None, True, False])))
+        if draw(st.integers(0, 5)) == 0:
+            # retained steps on both sides of 10 (e.g. 9 and 10, 10 and 11): a slowly converging solver, frequency 1, retention
+            # >= 2 and a first call of 10 or 11 sweeps, restored without naming a step - "latest" must be the numerically largest
+            if solver["kind"] == "pi":
+                solver = dict(kind="vi", params={k: v for k, v in solver["params"].items() if k not in ("max_eval_iter", "reset_values_for_each_policy_eval")})
+            solver["params"]["epsilon"] = 1e-4
+            if solver["kind"] != "rvi":
+                solver["params"]["gamma"] = 0.95
+            return dict(problem=problem, solver=solver, freq=1, keep=draw(st.integers(2, 3)), async_=draw(st.booleans()),
+                        calls=[draw(st.sampled_from([10, 11]))] + ([draw(st.integers(1, 3))] if draw(st.booleans()) else []),
+                        step_choice="latest", route=route, overrides=ov, later=draw(st.sampled_from([0, 3])), errpath=None,
+                        relocate=draw(st.sampled_from([None, None, "move"])))
         return dict(problem=problem, solver=solver, freq=draw(st.integers(1, 3)), keep=draw(st.integers(1, 3)),
                     async_=draw(st.booleans()), # (first calls of 9..11 sweeps put retained steps on both sides of 10: "latest" must be numeric, not lexicographic)
                     calls=[draw(st.sampled_from([1, 2, 3, 4, 5, 6, 7, 9, 10, 11]))] + ([draw(st.integers(1, 5))] if draw(st.booleans()) else []),
